@@ -63,7 +63,10 @@ def _table_contract(S):
 
 def _config(S, deg, npe, nodal, cell, nedge_calls):
     tag = 'deg%d,nodal=%s,cell=%s,edgecalls=%d' % (deg, ''.join(nodal) or '-', ''.join(cell) or '-', nedge_calls)
-    ns, vc, info = P.load_module(FILE, cuts={('VTKWriter._write_nodal_fields', 1)}, optional_cuts={('VTKWriter._write_cell_fields', 1)})
+    # the padding loops ("for sphere in self.spheres", "for edge in self.contactEdges") are cut where they exist; code that pads without a
+    # loop is simply executed
+    cuts = _padding_loops()
+    ns, vc, info = P.load_module(FILE, optional_cuts=cuts)
     ns['np'] = SA.NpShim()
     ns['len'] = SA.sym_len
     ns['write_matrix_as_table'] = SA.write_matrix_as_table_contract
@@ -83,6 +86,9 @@ def _config(S, deg, npe, nodal, cell, nedge_calls):
     FT, DT = ns['VTKFieldType'], ns['VTKDataType']
     ftypes = {'S': FT.SCALARS, 'V': FT.VECTORS, 'T': FT.TENSORS}
 
+    PAD_LABELS.clear()
+    for (qual, k) in cuts:
+        PAD_LABELS.add('%s#%d' % (qual, k))
     for lab in PAD_LABELS:
         vc.loops[lab] = PadLoop(ns, FT)
 
@@ -199,7 +205,39 @@ class PadLoop(P.LoopSpec):
         return out
 
 
-PAD_LABELS = {'VTKWriter._write_nodal_fields#1', 'VTKWriter._write_cell_fields#1'}
+PAD_LABELS = set()
+from vt import oblig as _oblig
+_oblig.OPTIONAL_CLAUSES['C20'] = ('VTKWriter._write_nodal_fields#', 'VTKWriter._write_cell_fields#')
+
+
+def _padding_loops():
+    """{(function qualname, loop ordinal)} of the loops that iterate over self.spheres / self.contactEdges inside the two field writers
+    (ordinals as LoopCut numbers them: pre-order over the function body)"""
+    import ast
+    import os
+    tree = ast.parse(open(os.path.join(P.REPO, FILE)).read())
+    out = set()
+    for cls in [n for n in tree.body if isinstance(n, ast.ClassDef) and n.name == 'VTKWriter']:
+        for fn in [n for n in cls.body if isinstance(n, ast.FunctionDef) and n.name in ('_write_nodal_fields', '_write_cell_fields')]:
+            k = [0]
+
+            def visit(stmts):
+                for st in stmts:
+                    if isinstance(st, (ast.For, ast.While)):
+                        mine = k[0]
+                        k[0] += 1
+                        it = getattr(st, 'iter', None)
+                        if isinstance(it, ast.Attribute) and isinstance(it.value, ast.Name) and it.value.id == 'self' and it.attr in ('spheres', 'contactEdges'):
+                            out.add(('VTKWriter.' + fn.name, mine))
+                        visit(st.body)
+                        visit(st.orelse)
+                    elif isinstance(st, (ast.If, ast.With, ast.Try)):
+                        for fld in ('body', 'orelse', 'finalbody'):
+                            visit(getattr(st, fld, []) or [])
+                        for h in getattr(st, 'handlers', []):
+                            visit(h.body)
+            visit(fn.body)
+    return out
 
 
 # ghost bookkeeping of the padding loop: the iteration counter advances with the loop index
